@@ -64,6 +64,15 @@ func (p *Path) callUF(fn *ssa.Function, args []Value) Value {
 		if isBool(t) {
 			return p.F.UF(n, term.Bool, leaves...)
 		}
+		if at, ok := t.Underlying().(*types.Array); ok {
+			if w, _, ok := intInfo(at.Elem()); ok && at.Len() <= 64 {
+				arr := &ArrayV{E: make([]Value, at.Len())}
+				for k := range arr.E {
+					arr.E[k] = p.F.UF(fmt.Sprintf("%s_e%d", n, k), term.BV(w), leaves...)
+				}
+				return arr
+			}
+		}
 		p.unsupported("uninterpreted function %s with result type %v", fn, t)
 		return nil
 	}
